@@ -2,7 +2,7 @@
 use crate::core::*;
 use crate::gen;
 use crate::model::dur::*;
-use hifitime::Duration;
+use hifitime::{Duration, TimeUnits, Unit};
 use std::cmp::Ordering;
 
 pub fn meta() -> Meta {
@@ -184,6 +184,99 @@ pub fn check_sort(rep: &mut Rep, v: Vec<Duration>) {
     }
 }
 
+/// "Two durations with the same count are equal": the same signed count reached through every constructor and through
+/// arithmetic must be one value for ==, cmp, the operators, min / max - whatever route produced it (a route that leaves a
+/// non-canonical (centuries, nanoseconds) pair behind shows up here as `Less` / `!=` between equal counts).
+pub fn check_provenance(rep: &mut Rep, c: i128, other: i128) {
+    if !rep.tick() {
+        return;
+    }
+    let c = clamp(c);
+    let reference = mk(c);
+    let mut routes: Vec<(&'static str, Duration)> = vec![];
+    let r = guard(|| {
+        let mut v: Vec<(&'static str, Duration)> = vec![("from_total_nanoseconds", Duration::from_total_nanoseconds(c))];
+        let (cc, nn) = canon(c);
+        v.push(("from_parts", Duration::from_parts(cc, nn)));
+        if cc > i16::MIN {
+            v.push(("from_parts(c-1, ns+NPC)", Duration::from_parts(cc - 1, nn + NPC as u64)));
+        }
+        if c >= i64::MIN as i128 && c <= i64::MAX as i128 {
+            let n = c as i64;
+            v.push(("from_truncated_nanoseconds", Duration::from_truncated_nanoseconds(n)));
+            v.push(("n * Unit::Nanosecond", n * Unit::Nanosecond));
+            v.push(("Unit::Nanosecond * n", Unit::Nanosecond * n));
+            v.push(("n.nanoseconds()", n.nanoseconds()));
+        }
+        for (u, name) in [(Unit::Century, "k * Unit::Century"), (Unit::Week, "k * Unit::Week"), (Unit::Day, "k * Unit::Day"), (Unit::Hour, "k * Unit::Hour"), (Unit::Second, "k * Unit::Second"), (Unit::Microsecond, "k * Unit::Microsecond")] {
+            let f = unit_ns(u);
+            if c % f == 0 && (c / f).abs() <= i64::MAX as i128 {
+                v.push((name, (c / f) as i64 * u));
+                if c.abs() < (1 << 53) {
+                    // (exact by C18: a whole number of nanoseconds below 2^53)
+                    v.push(("x * Unit (float)", ((c / f) as f64) * u));
+                }
+            }
+        }
+        if c % NS_D == 0 && (c / NS_D).abs() <= i64::MAX as i128 {
+            v.push(("k.days()", ((c / NS_D) as i64).days()));
+        }
+        if c % NPC == 0 {
+            v.push(("k.centuries()", ((c / NPC) as i64).centuries()));
+        }
+        // arithmetic routes (exact by C01 whenever the intermediate values are representable)
+        let o = clamp(other);
+        if (MIN_NS..=MAX_NS).contains(&(c - o)) {
+            v.push(("(c - o) + o", mk(c - o) + mk(o)));
+            let mut t = mk(c - o);
+            t += mk(o);
+            v.push(("(c - o) += o", t));
+        }
+        if (MIN_NS..=MAX_NS).contains(&(c + o)) {
+            v.push(("(c + o) - o", mk(c + o) - mk(o)));
+        }
+        if c != MIN_NS && c != MAX_NS {
+            v.push(("-(-c)", -(-mk(c))));
+            v.push(("-mk(-c)", -mk(-c)));
+        }
+        v.push(("c * 1", mk(c) * 1));
+        v.push(("c / 1", mk(c) / 1));
+        if c % 2 == 0 {
+            v.push(("(c / 2) * 2", mk(c / 2) * 2));
+            v.push(("(c/2) + (c/2)", mk(c / 2) + mk(c / 2)));
+        }
+        v.push(("c.abs() or -c.abs()", if c >= 0 { mk(c).abs() } else if c != MIN_NS { -(mk(c).abs()) } else { mk(c) }));
+        v
+    });
+    match r {
+        Err(e) => {
+            rep.fail(&format!("provenance/panic/{}", e.class()), None, || format!("building count {} through its routes panicked: {} at {}", c, e.msg, e.loc));
+            return;
+        }
+        Ok(v) => routes.extend(v),
+    }
+    rep.class("provenance");
+    if c % NPC == 0 {
+        rep.class("provenance/whole-centuries");
+    }
+    rep.nt(h64(&[77, c as u64, (c >> 64) as u64]));
+    for (name, d) in routes {
+        match guard(|| (d == reference, reference == d, d.cmp(&reference), reference.cmp(&d), d < reference, d > reference, d <= reference, d >= reference, d.min(reference), d.max(reference), std::cmp::min(d, reference), std::cmp::max(d, reference))) {
+            Err(e) => rep.fail(&format!("provenance/panic/{}", e.class()), None, || format!("comparing {} (via {name}) panicked: {}", fmt_parts(d.to_parts()), e.msg)),
+            Ok((e1, e2, o1, o2, lt, gt, le, ge, mn, mx, mn2, mx2)) => {
+                if !(e1 && e2) || o1 != Ordering::Equal || o2 != Ordering::Equal || lt || gt || !le || !ge {
+                    rep.fail("provenance/same-count-not-equal", None, || format!("count {} via {name} = {} against {}: == {} / {} cmp {:?} / {:?} < {} > {} <= {} >= {}", c, fmt_parts(d.to_parts()), fmt_parts(reference.to_parts()), e1, e2, o1, o2, lt, gt, le, ge));
+                }
+                for m in [mn, mx, mn2, mx2] {
+                    if count_d(m) != c {
+                        rep.fail("provenance/minmax", None, || format!("count {} via {name}: min/max with itself gave {}", c, fmt_parts(m.to_parts())));
+                    }
+                }
+            }
+        }
+    }
+}
+
 pub fn run(cfg: &Cfg, rep: &mut Rep) {
     let lat = gen::dur_lattice();
     let sh = rep.shard as usize;
@@ -196,6 +289,20 @@ pub fn run(cfg: &Cfg, rep: &mut Rep) {
         check_unit(rep, a);
         for &y in lat.iter() {
             check_pair(rep, a, mk(y));
+        }
+        for o in [0i128, 1, -1, x, -x, NPC, -NPC, NPC - 1, NS_D, 3 * NPC + 7, x / 2, x + NPC] {
+            check_provenance(rep, x, o);
+        }
+    }
+    // whole centuries, whole units and their neighbours through every route
+    for k in -40i128..=40 {
+        if (k + 40) as usize % n != sh {
+            continue;
+        }
+        for dlt in [0i128, 1, -1] {
+            for o in [0i128, 1, NPC, -NPC, NPC - 1, k * NPC, (k + 1) * NPC + 5, -k * NPC] {
+                check_provenance(rep, k * NPC + dlt, o);
+            }
         }
     }
     if sh == 0 {
@@ -231,6 +338,9 @@ pub fn run(cfg: &Cfg, rep: &mut Rep) {
         };
         let b = mk(cb);
         check_pair(rep, a, b);
+        if k % 8 == 0 {
+            check_provenance(rep, ca, cb);
+        }
         if k % 16 == 0 {
             // triple: consistency of all three pairs with the model order implies transitivity
             let c3 = mk(gen::rand_count(&mut r, &lat));
